@@ -9,7 +9,7 @@ import numbers
 
 import six
 
-from .datatypes import NA, Quantity, Coordinate
+from .datatypes import NA, Quantity, Coordinate, XStr
 from .metadata import MetadataObject
 from .sortabledict import SortableDict
 
@@ -43,8 +43,8 @@ class Grid(col.MutableSequence):
         # Metadata
         self.metadata = MetadataObject(validate_fn=self._detect_or_validate)
 
-        # The columns
-        self.column = SortableDict()
+        # The columns; metadata given as a plain dict is checked as well
+        self.column = SortableDict(validate_fn=self._detect_or_validate_meta)
 
         # Rows
         self._row = []
@@ -300,9 +300,18 @@ class Grid(col.MutableSequence):
                 or isinstance(val, list) \
                 or isinstance(val, dict) \
                 or isinstance(val, SortableDict) \
+                or isinstance(val, XStr) \
                 or isinstance(val, Grid):
             # Project Haystack 3.0 type.
             self._assert_version(VER_3_0)
+
+    def _detect_or_validate_meta(self, meta):
+        '''
+        Detect or validate the version from the values of a column's metadata.
+        '''
+        if isinstance(meta, dict) or isinstance(meta, SortableDict):
+            for val in meta.values():
+                self._detect_or_validate(val)
 
     def _assert_version(self, version):
         '''
